@@ -215,7 +215,7 @@ def fixed_cases():
 
 
 def gen(rng, tier):
-    n, scale = {"quick": (40, 1.0), "thorough": (1500, 1.0), "search": (400, 1.0)}[tier]
+    n, scale = {"quick": (36, 1.0), "thorough": (900, 1.0), "search": (300, 1.0)}[tier]
     for c in fixed_cases():
         yield c
     for i in range(n):
